@@ -3,6 +3,7 @@ import DnsVerif.Props.C06
 import DnsVerif.Lemmas.RTEmbedAll
 import DnsVerif.Lemmas.RTElem
 import DnsVerif.Lemmas.RTShift2
+import DnsVerif.Lemmas.ExtraC
 
 /-! # C10 — stand-alone element codecs agree with the message codec
 
@@ -16,7 +17,9 @@ message whenever the stand-alone encoding contains no pointer (`b.length = rr.us
 general (`elem_embeds_shift`, every well-formed record, no size bound) the octets the record occupies after the
 twelve header octets are its stand-alone octets with the compression pointers at some positions `P` moved by
 exactly 12 and nothing else changed (`RTS.ShiftEq`); a question written first is embedded unchanged
-(`question_embeds`). The correspondence run checks the same rule on the crate with a pointer-shift oracle. -/
+(`question_embeds`). Part 4: the same embedding for the first record in wire order in whichever record section it
+stands (`elem_embeds_first`, `…_authority`, `…_additional`), the flag octets (`flags_embed`) and the name of the first
+question (`name_embeds_as_qname`). The correspondence run checks the same rule on the crate with a pointer-shift oracle. -/
 
 namespace C10
 
@@ -76,6 +79,73 @@ theorem elem_embeds_shift_small {m : Msg} {rr : RR} {rest : List RR} {b bm : Byt
 theorem question_embeds {m : Msg} {q : Question} {rest : List Question} {b bm : Bytes} (hsm : EncLim.ShapedMsg m)
     (hq : m.qs = q :: rest) (h : encodeQuestion q = .ok b) (hm : encodeDns m = .ok bm) :
     ∃ tail, bm = EncLim.msgHeader m ++ b ++ tail := RTS.question_embeds hsm hq h hm
+
+/-! ## The first element of a message, whichever it is
+
+`elem_embeds` / `elem_embeds_shift` put the record first in the answer section. The same holds for the first record
+in wire order in whichever record section it stands (`EncLim.msgRRs m = m.an ++ m.ns ++ m.ar`, questions empty), for
+the header flags, and for the name of the first question. -/
+
+/-- pointer-free case, the record is the first record of the message in wire order -/
+theorem elem_embeds_first {m : Msg} {rr : RR} {rest : List RR} {b bm : Bytes} (hsm : EncLim.ShapedMsg m) (hwf : WfRR rr)
+    (hq : m.qs = []) (hfirst : EncLim.msgRRs m = rr :: rest) (h : encodeRR rr = .ok b) (hfull : b.length = rr.usize)
+    (hm : encodeDns m = .ok bm) : ∃ tail, bm = EncLim.msgHeader m ++ b ++ tail :=
+  ExtraC.elem_embeds_first hsm hwf hq hfirst h hfull hm
+
+/-- general case (pointers moved by 12), the record is the first record of the message in wire order -/
+theorem elem_embeds_shift_first {m : Msg} {rr : RR} {rest : List RR} {b bm : Bytes} (hsm : EncLim.ShapedMsg m)
+    (hwf : WfRR rr) (hq : m.qs = []) (hfirst : EncLim.msgRRs m = rr :: rest) (h : encodeRR rr = .ok b)
+    (hm : encodeDns m = .ok bm) : ∃ P b' tail, bm = EncLim.msgHeader m ++ b' ++ tail ∧ RTS.ShiftEq P 12 b b' :=
+  ExtraC.elem_embeds_shift_first hsm hwf hq hfirst h hm
+
+/-- first record of the authority section (questions and answers empty) -/
+theorem elem_embeds_authority {m : Msg} {rr : RR} {rest : List RR} {b bm : Bytes} (hsm : EncLim.ShapedMsg m)
+    (hwf : WfRR rr) (hq : m.qs = []) (han : m.an = []) (hns : m.ns = rr :: rest) (h : encodeRR rr = .ok b)
+    (hfull : b.length = rr.usize) (hm : encodeDns m = .ok bm) : ∃ tail, bm = EncLim.msgHeader m ++ b ++ tail :=
+  elem_embeds_first (rest := rest ++ m.ar) hsm hwf hq (by simp [EncLim.msgRRs, han, hns]) h hfull hm
+
+theorem elem_embeds_shift_authority {m : Msg} {rr : RR} {rest : List RR} {b bm : Bytes} (hsm : EncLim.ShapedMsg m)
+    (hwf : WfRR rr) (hq : m.qs = []) (han : m.an = []) (hns : m.ns = rr :: rest) (h : encodeRR rr = .ok b)
+    (hm : encodeDns m = .ok bm) : ∃ P b' tail, bm = EncLim.msgHeader m ++ b' ++ tail ∧ RTS.ShiftEq P 12 b b' :=
+  elem_embeds_shift_first (rest := rest ++ m.ar) hsm hwf hq (by simp [EncLim.msgRRs, han, hns]) h hm
+
+/-- first record of the additional section (all earlier sections empty) -/
+theorem elem_embeds_additional {m : Msg} {rr : RR} {rest : List RR} {b bm : Bytes} (hsm : EncLim.ShapedMsg m)
+    (hwf : WfRR rr) (hq : m.qs = []) (han : m.an = []) (hns : m.ns = []) (har : m.ar = rr :: rest)
+    (h : encodeRR rr = .ok b) (hfull : b.length = rr.usize) (hm : encodeDns m = .ok bm) :
+    ∃ tail, bm = EncLim.msgHeader m ++ b ++ tail :=
+  elem_embeds_first (rest := rest) hsm hwf hq (by simp [EncLim.msgRRs, han, hns, har]) h hfull hm
+
+theorem elem_embeds_shift_additional {m : Msg} {rr : RR} {rest : List RR} {b bm : Bytes} (hsm : EncLim.ShapedMsg m)
+    (hwf : WfRR rr) (hq : m.qs = []) (han : m.an = []) (hns : m.ns = []) (har : m.ar = rr :: rest)
+    (h : encodeRR rr = .ok b) (hm : encodeDns m = .ok bm) :
+    ∃ P b' tail, bm = EncLim.msgHeader m ++ b' ++ tail ∧ RTS.ShiftEq P 12 b b' :=
+  elem_embeds_shift_first (rest := rest) hsm hwf hq (by simp [EncLim.msgRRs, han, hns, har]) h hm
+
+/-- every encoded message starts with the twelve header octets (`msgHeader`: id, flags, the four true counts) -/
+theorem header_embeds {m : Msg} {bm : Bytes} (hsm : EncLim.ShapedMsg m) (hm : encodeDns m = .ok bm) :
+    ∃ rest, bm = EncLim.msgHeader m ++ rest := ExtraC.header_embeds hsm hm
+
+/-- the flag octets of a message (offsets 2 and 3) are exactly what the stand-alone `Flags::encode` writes -/
+theorem flags_embed {m : Msg} {bm : Bytes} (hsm : EncLim.ShapedMsg m) (hm : encodeDns m = .ok bm) :
+    (bm.drop 2).take 2 = encodeFlags m.flags := ExtraC.flags_embed hsm hm
+
+/-- the name of the first question occupies offset 12.. exactly as the stand-alone `DomainName::encode` writes it -/
+theorem name_embeds_as_qname {m : Msg} {q : Question} {rest : List Question} {b bm : Bytes} (hsm : EncLim.ShapedMsg m)
+    (hq : m.qs = q :: rest) (h : encodeName q.name = .ok b) (hm : encodeDns m = .ok bm) :
+    ∃ tail, bm = EncLim.msgHeader m ++ b ++ tail := ExtraC.name_embeds_as_qname hsm hq h hm
+
+/-! non-vacuity: an A record as the only additional record; the flags and the question name of a query -/
+example : ∃ tail, [0, 7, 0, 0, 0, 0, 0, 0, 0, 0, 0, 1, 1, 97, 0, 0, 1, 0, 1, 0, 0, 0, 60, 0, 4, 10, 0, 0, 1] =
+    EncLim.msgHeader ⟨7, ⟨false, 0, false, false, false, false, false, false, 0⟩, [], [], [],
+      [⟨[[97]], 1, 1, 60, .fields [.bytes [10, 0, 0, 1]]⟩]⟩ ++
+      [1, 97, 0, 0, 1, 0, 1, 0, 0, 0, 60, 0, 4, 10, 0, 0, 1] ++ tail := ⟨[], rfl⟩
+example : encodeDns ⟨7, ⟨false, 0, false, false, false, false, false, false, 0⟩, [], [], [],
+      [⟨[[97]], 1, 1, 60, .fields [.bytes [10, 0, 0, 1]]⟩]⟩ =
+    .ok [0, 7, 0, 0, 0, 0, 0, 0, 0, 0, 0, 1, 1, 97, 0, 0, 1, 0, 1, 0, 0, 0, 60, 0, 4, 10, 0, 0, 1] := rfl
+example : encodeDns ⟨7, ⟨false, 0, false, false, true, false, false, false, 0⟩, [⟨[[97]], 1, 1⟩], [], [], []⟩ =
+    .ok ([0, 7] ++ encodeFlags ⟨false, 0, false, false, true, false, false, false, 0⟩ ++ [0, 1, 0, 0, 0, 0, 0, 0] ++
+      [1, 97, 0] ++ [0, 1, 0, 1]) ∧ encodeName [[97]] = .ok [1, 97, 0] := ⟨rfl, rfl⟩
 
 /-- message decoder and element decoder agree on the record's value, pointers or not -/
 theorem elem_codecs_agree {m : Msg} {rr : RR} {rest : List RR} {b bm : Bytes} (hwf : WfMsg m)
